@@ -51,36 +51,72 @@ def git(*args: str) -> str:
     return subprocess.run(["git", "-C", str(REPO), *args], check=True, capture_output=True, text=True).stdout
 
 
+def run_child(sha: str) -> dict:
+    env = dict(os.environ, VERIF_REPO=str(REPO), PYTHONDONTWRITEBYTECODE="1", PYTHONWARNINGS="ignore")
+    p = subprocess.run([sys.executable, "-c", CHILD % {"verif": str(VERIF), "sha": sha}], capture_output=True, text=True, env=env)
+    line = next((ln for ln in p.stdout.splitlines() if ln.startswith("RESULT ")), None)
+    if line is None:
+        raise RuntimeError(p.stderr[-600:])
+    return json.loads(line[len("RESULT "):])
+
+
+def restore() -> None:
+    subprocess.run(["git", "-C", str(REPO), "revert", "--abort"], capture_output=True)
+    git("reset", "--hard", "-q", "HEAD")
+
+
+def revert(sha: str) -> str:
+    """Revert `sha` alone; if a later repair touches the same lines, revert those later commits (newest first) with it."""
+    try:
+        git("revert", "-n", sha)
+        return ""
+    except subprocess.CalledProcessError:
+        restore()
+    files = git("show", "--name-only", "--format=", sha).split()
+    later = git("log", "--format=%h", f"{sha}..HEAD", "--", *files).split()  # newest first
+    for k in range(1, len(later) + 1):
+        # the smallest set of later commits on the same files, taken from the newest, whose removal makes `sha` revertible
+        for subset in ([later[j] for j in range(len(later)) if j < k],):
+            try:
+                for c in subset:
+                    git("revert", "-n", c)
+                git("revert", "-n", sha)
+                return " (together with the later " + ", ".join(subset) + " on the same lines)"
+            except subprocess.CalledProcessError:
+                restore()
+    raise RuntimeError("cannot be reverted")
+
+
 def main() -> int:
     if git("status", "--porcelain").strip():
         print("the worktree is not clean", file=sys.stderr)
         return 2
     fixed = json.loads((VERIF / "findings.d" / "C01.json").read_text())["fixed"]
     shas = sys.argv[1:] or [f["commit"] for f in fixed]
+    baseline = set(run_child("-")["enumerated"])  # crashes of the repaired tree (the known findings): not counted as detection
+    print(f"baseline (repaired tree): {sorted(baseline)}")
     rc = 0
     for sha in shas:
         try:
             try:
-                git("revert", "-n", sha)
-            except subprocess.CalledProcessError as e:
-                print(f"{sha}  cannot be reverted alone (conflicts with a later repair): {e.stderr.strip().splitlines()[-1] if e.stderr else ''}")
-                continue
-            env = dict(os.environ, VERIF_REPO=str(REPO), PYTHONDONTWRITEBYTECODE="1")
-            p = subprocess.run([sys.executable, "-c", CHILD % {"verif": str(VERIF), "sha": sha}], capture_output=True, text=True, env=env)
-            line = next((ln for ln in p.stdout.splitlines() if ln.startswith("RESULT ")), None)
-            if line is None:
-                print(f"{sha}  harness error: {p.stderr[-400:]}")
+                how = revert(sha)
+            except RuntimeError as e:
+                print(f"{sha}  {e}")
                 rc = 2
                 continue
-            out = json.loads(line[len("RESULT "):])
-            ok = bool(out["enumerated"])
-            by_roles = any("role-enumerated" in e for e in out["enumerated"].values())
-            print(f"{sha}  {'DETECTED' if ok else 'MISSED'}{' (also by role x catalogue alone)' if by_roles else ''}  witnesses={out['witnesses']}  enumerated={out['enumerated']}")
-            if not ok:
+            try:
+                out = run_child(sha)
+            except RuntimeError as e:
+                print(f"{sha}  harness error: {e}")
+                rc = 2
+                continue
+            new = {sig: e for sig, e in out["enumerated"].items() if sig not in baseline}
+            by_roles = any("role-enumerated" in e for e in new.values())
+            print(f"{sha}  {'DETECTED' if new else 'MISSED'}{' (also by role x catalogue alone)' if by_roles else ''}{how}  witnesses={out['witnesses']}  enumerated={new}")
+            if not new:
                 rc = max(rc, 1)
         finally:
-            subprocess.run(["git", "-C", str(REPO), "revert", "--abort"], capture_output=True)
-            git("reset", "--hard", "-q", "HEAD")
+            restore()
     return rc
 
 
